@@ -9,10 +9,10 @@ Open Scope list_scope.
 Open Scope nat_scope.
 
 (* SCOPE.  The real object keeps everything in ONE __dict__: the series under '_' + name next to its own bookkeeping (`span`, `index`,
-   `_attributes`, `_strict`; models: `names`, `dtype`).  The property's operations are "variable creation, whole-series, positional,
+   `_attributes`, `_strict`; models: `names`, `dtype`; linkers also `submodels` and `name`, neither registered in `_attributes`).  The property's operations are "variable creation, whole-series, positional,
    label and bulk assignment, values replacement" (+ add_attribute, strict toggle, read-only hooks).  An attribute assignment or
    add_attribute that TARGETS the bookkeeping - a name for which `bookkeeping (kind s) name = true`: span, index, any name starting
-   with '_', and for models names / dtype - is not one of them; the real object accepts it (also under strict=True) and the
+   with '_', for models names / dtype, for linkers also submodels / name - is not one of them; the real object accepts it (also under strict=True) and the
    invariants then fail: C09_*_needs_scope_refuted.  Hence the hypothesis `in_scope (kind s) o` / `Forall (in_scope (kind s)) ops`
    (= SetAttr / AddAttribute do not target a bookkeeping name; every other operation is in scope) on the history theorems.
    WHAT IS ORACLE / K ONLY (no theorem): the TEXT of the near-miss message of strict=True (the model has exception classes, the
@@ -149,6 +149,14 @@ Section C09.
     exists e, add_variable pycast arrcast infer astype_dt name value dt s = (s, Raise e) /\ e = DuplicateNameError.
   Proof. exact (reserved_name_rejected pycast arrcast infer astype_dt name value dt s). Qed.
 
+  (* fix cf99a8a: a dtype that adds a dimension (RSub: a sub-array dtype such as '2f8' / (float, 2)), asked for in the call or
+     inherited from the model (dtype='2f8' at construction), never creates a variable: the call raises, nothing changes.
+     (That it is DimensionError: C09_subarray_dtype_rejected_np for NumPy's tables, and K.) *)
+  Theorem C09_subarray_dtype_rejected name value dt s :
+    match dt with Some r => adds_dim r = true | None => kind s <> CVC /\ exists r, dflt s = Some r /\ adds_dim r = true end ->
+    exists e, add_variable pycast arrcast infer astype_dt name value dt s = (s, Raise e).
+  Proof. exact (add_variable_subarray_rejected pycast arrcast infer astype_dt name value dt s). Qed.
+
   Theorem C09_attributes_and_strict_are_reserved s : storage_taken "attributes" s = true /\ storage_taken "strict" s = true.
   Proof. exact (attributes_and_strict_are_reserved s). Qed.
 
@@ -281,9 +289,34 @@ Theorem C09_dtype_assignment_needs_scope_refuted :
     dtype_of (fst (np_step (AddVariable "N" (OScalar (PFlt (FHalf 3))) None) (fst (np_step o s)))) "N" = Some DInt.
 Proof. exact dtype_assignment_needs_scope_refuted. Qed.
 
+(* c._X = np.array([2., 4.]) (strict off, accepted): the series object of X is replaced by the caller's array: 2 float cells on a
+   span of 3 periods where 3 int cells were created - length and dtype are lost, Inv fails.  (An assignment of something that is no
+   array, c._X = 5, is outside the model: OtherError.) *)
 Theorem C09_underscore_assignment_needs_scope_refuted :
-  exists s o, Inv s /\ ~ in_scope (kind s) o /\ snd (np_step o s) = Raise OtherError.
+  exists s o, Inv s /\ ~ in_scope (kind s) o /\ snd (np_step o s) = Ret tt /\ span (fst (np_step o s)) = span s /\
+    assoc "X" (vars s) = Some (mkVar DInt [3] [PInt 1; PInt 2; PInt 3]%Z) /\
+    assoc "X" (vars (fst (np_step o s))) = Some (mkVar DFloat [2] [PFlt (FHalf 2); PFlt (FHalf 4)]%Z) /\
+    ~ Inv (fst (np_step o s)).
 Proof. exact underscore_assignment_needs_scope_refuted. Qed.
+
+(* a linker: l.submodels = {} (the model writes the empty mapping as OSeq KList []) is accepted with strict off; `size` drops from
+   9 to 3 (it no longer counts the submodel's 6 elements) and the kind that C09_span_kept keeps changes; l.name = 'A' (a submodel's
+   id; the real `size` then raises TypeError) is out of scope too and outside the model (OtherError) *)
+Theorem C09_submodels_assignment_needs_scope_refuted :
+  exists s o, Inv s /\ ~ in_scope (kind s) o /\ snd (np_step o s) = Ret tt /\
+    size_of s = 9 /\ size_of (fst (np_step o s)) = 3 /\ kind (fst (np_step o s)) <> kind s /\
+    snd (np_step (SetAttr "name" (OScalar (PStr "A")) None) s) = Raise OtherError /\
+    ~ in_scope (kind s) (SetAttr "name" (OScalar (PStr "A")) None).
+Proof. exact submodels_assignment_needs_scope_refuted. Qed.
+
+Theorem C09_subarray_dtype_rejected_np :
+  np_step (AddVariable "N" (OScalar (PInt 0)) (Some RSub)) w0 = (w0, Raise DimensionError) /\
+  np_step (AddVariable "N" (li [1; 2; 3]%Z) (Some RSub)) w0 = (w0, Raise DimensionError) /\
+  snd (np_init_model CModel [1; 2; 3]%Z false RSub (OScalar (PFlt (FHalf 0))) ["Y"] []) = Raise DimensionError /\
+  (let m := np_init_model CModel [1; 2; 3]%Z false RSub (OScalar (PFlt (FHalf 0))) [] [] in
+   snd m = Ret tt /\ np_step (AddVariable "N" (OScalar (PInt 0)) None) (fst m) = (fst m, Raise DimensionError) /\
+   snd (np_step (AddVariable "N" (OScalar (PInt 0)) (Some RFloat)) (fst m)) = Ret tt).
+Proof. exact subarray_dtype_rejected_np. Qed.
 
 Print Assumptions C09_inv_unfolded.
 Print Assumptions C09_inv_init_container.
@@ -313,6 +346,9 @@ Print Assumptions C09_index_assignment_needs_scope_refuted.
 Print Assumptions C09_names_assignment_needs_scope_refuted.
 Print Assumptions C09_dtype_assignment_needs_scope_refuted.
 Print Assumptions C09_underscore_assignment_needs_scope_refuted.
+Print Assumptions C09_submodels_assignment_needs_scope_refuted.
+Print Assumptions C09_subarray_dtype_rejected.
+Print Assumptions C09_subarray_dtype_rejected_np.
 Print Assumptions C09_add_variable_atomic.
 Print Assumptions C09_duplicate_name_rejected.
 Print Assumptions C09_unknown_name_item_rejected.
